@@ -84,6 +84,9 @@ def build_simbatch(desc):
     items = [_place(rng, mid, "p%d" % i, force=0.05) for i in range(n)]
     ex_after = sorted(rng.sample(range(n), min(n, rng.randint(0, 3)))) if n else []
     actions = [{"m": mid, "at": 1, "op": "batch", "items": items, "execute_after": ex_after}]
+    if n and rng.random() < 0.15:
+        # the strategy raises inside the `with market.transaction()` block: what was accepted must still be sent once
+        actions[0]["raise_after"] = rng.randrange(n)
     # later: batches of cancels / updates / replaces on what is live (and on what is not)
     for at in (4, 6, 9, 11):
         k = rng.choice((0, 1, 30, 61, 130))
